@@ -14,6 +14,8 @@ structure D where
   accts : List Bytes
   addrs : List Bytes
   heights : List Nat
+  mainnet : Bool := false
+  committed : State := State.empty 0   -- account state as of the last block end (what `rewind` falls back to)
 
 def D.init : D := { st := State.empty 0, live := false, ids := [], accts := [], addrs := [], heights := [] }
 
@@ -62,6 +64,16 @@ def dump (d : D) : String :=
     ++ " B=" ++ ",".intercalate b ++ " E=" ++ ",".intercalate e ++ " R=" ++ ",".intercalate r
     ++ " K=" ++ ",".intercalate (d.ids.map (fun id => match st.pkOf id with | none => "nil" | some k => toHex k))
 
+def readerStr (d : D) : String :=
+  let c := d.committed
+  let h := d.st.height
+  if candidatesPanic realCfg c then "PANIC" else
+  let cs := sortStrs ((candidates realCfg c h).map (fun m => toString m.stake ++ "/" ++ toString m.applyHeight ++ "/" ++ toString m.typ))
+  let ps := d.ids.map (fun id => match proposeMiner realCfg c id with
+    | none => "nil"
+    | some m => toString m.stake ++ "/" ++ toString m.applyHeight ++ "/" ++ toString m.typ)
+  ",".intercalate cs ++ "|" ++ ",".intercalate ps ++ "|" ++ toString (proposerCount realCfg c h)
+
 def badKind? : String → Option BadKind
   | "apply-json" => some .applyJson
   | "add-json" => some .addJson
@@ -79,7 +91,14 @@ def stepOpt (d : D) (ws : List String) : Option (D × String) :=
   | ["reset", h] => do
     let h ← h.toNat?
     -- the public-key cache is a process-wide LevelDB: it survives the reset of the account state
-    pure ({ D.init with st := { State.empty h with pk := d.st.pk }, live := true, heights := [h] }, "ok")
+    let d0 : D := { D.init with st := { State.empty h with pk := d.st.pk }, live := true, heights := [h] }
+    pure ({ d0 with committed := State.empty h, mainnet := d.mainnet }, "ok")
+  | ["config", c] =>
+    -- fork schedule: every flag on the miner path has the modelled value beyond the network's last proposal;
+    -- the one network-dependent branch is `IsMainnet() && type == proposer` in minerApplyExecutor
+    if c == "dev" ∨ c == "robin" then some ({ d with mainnet := false }, "ok")
+    else if c == "mainnet" then some ({ d with mainnet := true }, "ok")
+    else none
   | _ =>
     if !d.live then none else
     match ws with
@@ -101,7 +120,11 @@ def stepOpt (d : D) (ws : List String) : Option (D × String) :=
       let src ← ofHex? src; let id ← ofHex? id; let t ← t.toNat?; let s ← s.toNat?
       let ac ← ofHex? ac; let pk ← ofHex? pk; let vrf ← ofHex? vrf
       if s > maxU64 then none
-      pure (doTx d (.apply src id t s ac pk vrf))
+      if d.mainnet ∧ t = typeProposer then
+        -- "mainnet not support Proposer": rejected right after the JSON parse, i.e. a rejected transaction
+        let r := doTx d (.bad .applyJson src)
+        pure (r.1, if r.2 = "fail:json" then "fail:mainnet" else r.2)
+      else pure (doTx d (.apply src id t s ac pk vrf))
     | ["add", src, id, dl] => do
       let src ← ofHex? src; let id ← ofHex? id; let dl ← dl.toNat?
       if dl > maxU64 then none
@@ -131,8 +154,12 @@ def stepOpt (d : D) (ws : List String) : Option (D × String) :=
       pure ({ d with st := r.2 }, if r.1 then "ok" else "err")
     | ["endblock", n] => do
       let n ← n.toNat?
-      pure ({ d with st := endBlock d.st n, heights := d.heights ++ [n] }, "ok")
-    | ["dump"] => pure (d, dump d)
+      pure ({ d with st := endBlock d.st n, committed := endBlock d.st n, heights := d.heights ++ [n] }, "ok")
+    | ["rewind"] =>
+      -- the block being executed is discarded: the account state falls back to the last block end; the public-key
+      -- cache is not part of it and keeps what the discarded block put there
+      pure ({ d with st := rewind d.committed d.st }, "ok")
+    | ["dump"] => pure (d, dump d ++ " X=" ++ readerStr d)
     | _ => none
 
 def step (d : D) (line : String) : D × String :=
